@@ -166,6 +166,28 @@ Section Shard.
     - intros fd ->. destruct HQ as [-> |(r1 & ->)]; cbn [sg_inv] in HI; destruct HI as (_ & (H1 & H2)); (split; [|rewrite H1; exact H2]); [left|right]; exact H1.
   Qed.
 
+  (** The same for any program the lookup monitor accepts (the stack-level lookup
+      wraps [sh_get] in result plumbing). *)
+  Theorem sharded_get_reads_gen (p : prog (outcome (option nat))) w o :
+    wpv sg_step p (fun r s' => match r with
+                               | Ok (Some fd) => s' = G1 (RFd fd) \/ exists r1, s' = G2 r1 (RFd fd)
+                               | _ => s' <> G0
+                               end) G0 ->
+    w_fs w = f0 -> names_plain f0 ->
+    let '(r, w', _, _) := run p w o in
+    (forall x, name_of (w_fs w') x = name_of f0 x) /\
+    (forall fd, r = Ok (Some fd) ->
+       (fdino (w_fs w') fd = name_of f0 (dstp ida) \/ fdino (w_fs w') fd = name_of f0 (dstp idb)) /\ fdino (w_fs w') fd <> None).
+  Proof.
+    intros Hp Hw Hpl.
+    pose proof (sane_run sg_step p _ G0 sg_inv Hp sg_inv_step w o ltac:(rewrite Hw; exact Hpl) Hw) as H.
+    destruct (run p w o) as [[[r w'] o'] tr]. destruct H as (s' & HQ & HI & _).
+    split.
+    - destruct s' as [|r1|r1 r2]; cbn [sg_inv] in HI; [|exact (proj1 HI)..].
+      destruct r as [[fd|]|e|]; try congruence; destruct HQ as [HQ|(r1 & HQ)]; discriminate.
+    - intros fd ->. destruct HQ as [-> |(r1 & ->)]; cbn [sg_inv] in HI; destruct HI as (_ & (H1 & H2)); (split; [|rewrite H1; exact H2]); [left|right]; exact H1.
+  Qed.
+
   (** ** the copy a set does not write stays absent *)
   Variable v : path.
   Hypothesis Hv : plainp v = true.
